@@ -120,8 +120,10 @@ def trModule (c : ClassD) : V.Module :=
   let outs := (c.ports.filter (·.isOut)).map fun p => ({ dir := .out, isReg := true, width := p.width, name := p.port } : V.Port)
   let clk : List V.Port := if c.isSeq then [{ dir := .inp, isReg := false, width := 1, name := c.clk }] else []
   let ints := (c.state.map (·.1) ++ newVars c).map fun n => V.Item.int n none
-  -- the `initial` block repeats EVERY constructor assignment in order (the last one wins, as in the constructed object)
-  let inits := if c.isSeq then c.inits.map fun (n, v) => V.Stmt.ba (.lid n) (numE v) else []
+  -- the `initial` block repeats EVERY constructor assignment in order (the last one wins, as in the constructed object), then gives
+  -- every output register the simulator's power-up value 0 (both pipelines, /repo C02r_2 + C02r_4)
+  let inits := (c.inits.map fun (n, v) => V.Stmt.ba (.lid n) (numE v)) ++
+               ((c.ports.filter (·.isOut)).map fun p => V.Stmt.ba (.lid p.port) (numE 0))
   { name := c.name, params := c.params.map (·.1), ports := clk ++ ins ++ outs,
     items := ints ++ [V.Item.initial (seqOf inits), V.Item.always (if c.isSeq then .pos c.clk else .star) (trS c c.body)] }
 
@@ -220,7 +222,7 @@ def okSg (q : Bool) (c : ClassD) : Stmt → Bool
   | .seq a b => okSg q c a && okSg q c b
   | .setLoc n e => !(isPort c n) && !(isState c n) && (lookup c.consts n).isNone && (lookup c.params n).isNone && okV c e
   | .setAttr n e => isState c n && !(isPort c n) && (lookup c.params n).isNone && q && okV c e
-  | .put w e => isOutPort c w && !q && okV c e && wideAssign c w e
+  | .put w e => isOutPort c w && okV c e && wideAssign c w e     -- blocking `=` since /repo C02r_3: immediate, like Wire.put
   | .prep w e => isOutPort c w && q && okV c e && wideAssign c w e
   | .ife cnd t e => okC c cnd && okSg q c t && okSg q c e
   | .mtch subj ch => okV c subj && exact c subj && okSg q c ch
@@ -257,6 +259,35 @@ def putsS : Stmt → List String
   | .dflt body => putsS body
   | _ => []
 
+/-- definite-assignment analysis of a `propagate()` body: `D` = wires that have certainly been put so far in this call; a `get` of a
+    wire that the body puts somewhere must find it in `D`, otherwise the call reads the value left by the PREVIOUS activation: a
+    combinational feedback loop (`o.put(o.get()+1)`), whose result depends on how often the block is activated.  `none` = feedback. -/
+def inter (a b : List String) : List String := a.filter (b.contains ·)
+
+def daS (P : List String) : List String → Stmt → Option (List String)
+  | D, .skip => some D
+  | D, .seq a b => match daS P D a with | some D1 => daS P D1 b | none => none
+  | D, .setLoc _ e => if (getsE e).all (fun w => !(P.contains w) || D.contains w) then some D else none
+  | D, .setAttr _ e => if (getsE e).all (fun w => !(P.contains w) || D.contains w) then some D else none
+  | D, .put w e => if (getsE e).all (fun w => !(P.contains w) || D.contains w) then some (w :: D) else none
+  | D, .prep _ e => if (getsE e).all (fun w => !(P.contains w) || D.contains w) then some D else none
+  | D, .ife cnd t e =>
+      if (getsE cnd).all (fun w => !(P.contains w) || D.contains w) then
+        match daS P D t, daS P D e with
+        | some a, some b => some (inter a b)
+        | _, _ => none
+      else none
+  | D, .mtch subj ch => if (getsE subj).all (fun w => !(P.contains w) || D.contains w) then daS P D ch else none
+  | D, .arm v g body rest =>
+      if (getsE v ++ (match g with | some ge => getsE ge | none => [])).all (fun w => !(P.contains w) || D.contains w) then
+        match daS P D body, daS P D rest with
+        | some a, some b => some (inter a b)
+        | _, _ => none
+      else none
+  | D, .dflt body => daS P D body
+
+def noFeedback (body : Stmt) : Bool := (daS (putsS body) [] body).isSome
+
 def allDistinct : List String → Bool
   | [] => true
   | x :: r => !(r.contains x) && allDistinct r
@@ -269,7 +300,8 @@ def okClass (c : ClassD) : Bool :=
   c.state.all (fun (_, v) => decide (0 ≤ v)) &&
   -- `state` is what the constructor's assignments leave behind: every state value is the LAST assigned constant
   c.state.all (fun (n, v) => lastVal c.inits n == some v) && c.inits.all (fun (n, v) => isState c n && decide (0 ≤ v)) &&
-  (c.isSeq || (getsS c.body).all (fun w => !(putsS c.body).contains w))
+  -- a combinational body must be a function of its inputs (module-level settling re-activates it until nothing changes)
+  (c.isSeq || noFeedback c.body)
 
 def supported (c : ClassD) : Bool := okClass c && okS c c.body
 
